@@ -318,3 +318,19 @@ def run(ctx):
     banks = [n for n in ast.walk(scan) if isinstance(n, ast.Call) and norm(n.func) == "CSRBank"]
     ok = len(banks) == 1 and any(k.arg == "ordering" and norm(k.value) == "self.ordering" for k in banks[0].keywords)
     ctx.ob("R4", BUS, "CSRBankArray.scan", "one CSRBank per object, with the array's ordering", ok, "" if ok else f"{[norm(b) for b in banks]}", scan)
+    # every configuration that changes how a bank decodes its addresses is passed down from the array: a bank built with a default
+    # answers at another address than the one it was given
+    for cname in ("CSRBank", "SRAM"):
+        cs = [n for n in ast.walk(scan) if isinstance(n, ast.Call) and norm(n.func) == cname]
+        kws = {k.arg: norm(k.value) for c in cs for k in c.keywords}
+        need = {"paging": "self.paging"}
+        if cname == "CSRBank":
+            need["ordering"] = "self.ordering"
+        okk = len(cs) == 1 and all(kws.get(k) == v for k, v in need.items())
+        ctx.ob("R4", BUS, "CSRBankArray.scan", f"{cname} built with the array's {' and '.join(sorted(need))}", okk,
+               "" if okk else f"{cname}({', '.join(f'{k}={v}' for k, v in sorted(kws.items()))}): the bank decodes with the default page size / order -- "
+                              f"with a non-default setting it answers at another address (and drives dat_r when it is not addressed)", cs[0] if cs else scan)
+    init = bm.method("CSRBank", "__init__")
+    ok = any(isinstance(n, ast.Assign) and norm(n.targets[0]) == "aligned_paging" and norm(n.value) == "paging // 4" for n in ast.walk(init))
+    fxb = fx_of(ctx, BUS, "CSRBank", entries=("__init__", "do_finalize")) if False else None
+    ctx.ob("R4", BUS, "CSRBank.__init__", "page size in words = paging // 4", ok, "" if ok else "aligned_paging changed", init)
